@@ -125,8 +125,15 @@ func solveOne(o *Obligation, opt SolveOpts) {
 	var total float64
 	var lastOut string
 	o.Status = "unknown"
-	for _, s := range solvers(opt.TimeoutS) {
-		st, out, secs := runSolver(s, file, opt.TimeoutS)
+	slv := solvers(opt.TimeoutS)
+	tmo := opt.TimeoutS
+	if o.ExpectSat {
+		// vacuity guard: a quick satisfiability probe; only a definite unsat is an error
+		tmo = 3
+		slv = solvers(tmo)[:1]
+	}
+	for _, s := range slv {
+		st, out, secs := runSolver(s, file, tmo)
 		total += secs
 		lastOut = out
 		if st == "sat" || st == "unsat" {
@@ -158,7 +165,7 @@ func solveOne(o *Obligation, opt SolveOpts) {
 
 func (o *Obligation) ok() bool {
 	if o.ExpectSat {
-		return o.Status == "sat" || o.Status == "unknown" || o.Status == "timeout" // vacuity: only a definite unsat is an error
+		return o.Status != "unsat" // vacuity: only a definite unsat is an error
 	}
 	return o.Status == "unsat"
 }
